@@ -268,17 +268,17 @@ PROPS["C04"] = {
     "module": "GstProofs.Props.C04",
     "theorems": [
         "GstProofs.C04.wide_moving_all", "GstProofs.C04.loo_weights", "GstProofs.C04.loo_estimate",
-        "GstProofs.C04.blockAverage_single", "GstProofs.C04.uk_from_sk", "GstProofs.C04.bayes_weights", "GstProofs.C04.bayes_estimate", "GstProofs.C01.dual", "GstProofs.C06.knn_spec",
+        "GstProofs.C04.blockAverage_single", "GstProofs.C04.uk_from_sk", "GstProofs.C04.bayes_weights", "GstProofs.C04.bayes_estimate", "GstProofs.C04.collocated_weights", "GstProofs.C01.dual", "GstProofs.C06.knn_spec",
     ],
     "harnesses": ["vh_c04"],
     "level": "proof",
     "technique": "Lean 4 theorems giving, for each pair of code paths, the reason why the answers coincide in the model (a moving neighbourhood where no limit binds selects every candidate; leave-one-out weights and estimate from one column of the inverse of the complete system, any size; dual = primal; one-point block average = point value; k-NN specification) + differential correspondence: both paths of the real library run on the same generated input and compared by the Lean driver (2^-20 of the scale), ties of nearest samples decided in exact integer arithmetic and skipped",
-    "level_text": "Partial proof: the algebraic identities behind unique=moving, cross-validation=leave-one-out, dual=primal and block(1 point)=point are theorems for all sizes; the universal-kriging weights of the algebraic calculator (simple kriging corrected through the Schur complement) solve the bordered system (theorem uk_from_sk); the Bayesian form of the calculator (posterior precision) is simple kriging of the residuals under the covariance Sigma + X S X' (theorems bayes_weights, bayes_estimate); optimised covariance matrices, the ball tree and the equality of the two paths of the library are tied by the differential run only. The cross-validation, collocated and Bayesian forms of the calculator are compared with the standard kriging function (leave-one-variable-set-out, collocated datum added to the data, kribayes) and the Bayesian form also with its definition (simple kriging under the covariance Sigma + X S X').",
+    "level_text": "Partial proof: the algebraic identities behind unique=moving, cross-validation=leave-one-out, dual=primal and block(1 point)=point are theorems for all sizes; the universal-kriging weights of the algebraic calculator (simple kriging corrected through the Schur complement) solve the bordered system (theorem uk_from_sk); the Bayesian form of the calculator (posterior precision) is simple kriging of the residuals under the covariance Sigma + X S X' (theorems bayes_weights, bayes_estimate); its collocated form with a known mean gives the weights of cokriging with the collocated datum added to the data (theorem collocated_weights); optimised covariance matrices, the ball tree and the equality of the two paths of the library are tied by the differential run only. The cross-validation, collocated and Bayesian forms of the calculator are compared with the standard kriging function (leave-one-variable-set-out, collocated datum added to the data, kribayes) and the Bayesian form also with its definition (simple kriging under the covariance Sigma + X S X').",
     "level_note": "Trusted: Lean kernel + 3 standard axioms; for block kriging only the estimates are compared: the block variance term C(v,v) is evaluated by design between the regular discretisation and a randomly shifted copy (never C(0)), so the standard deviation differs from point kriging even with one discretisation point.",
     "rule": "random configurations (1-3D, 1-2 variables, known mean / order 0-1 drift, 6-14 samples, 3 off-lattice targets): covariance matrix optimised vs plain vs pairwise; unique vs wide moving neighbourhood; xvalid vs explicit leave-one-out (order <= 0); migrate ball tree vs exhaustive; moving neighbourhood ball tree vs standard (nmaxi nearest, no sector), then again with the same neighbourhood and data-base objects after the data locations have been exchanged in place; block(1 point) vs point; KrigingCalcul primal and dual vs kriging; its cross-validation form (all variables of one sample, or one of two) vs kriging with those values undefined; its collocated form (2 variables, second known at the target; known mean and drift) vs kriging with the datum added; its Bayesian form (random prior mean and full prior covariance on 1-6 drift coefficients, 3 targets) vs kribayes and vs simple kriging with the covariance Sigma + X S X'. distinct = distinct request line",
     "trivial": lambda line: False,
     "trusted_base": TB_COMMON,
-    "uncovered": ["the collocated identity is compared on the library, not yet a theorem of the model (the Bayesian one is: bayes_weights, bayes_estimate; cross-validation: loo_weights)", "kribayes with two or more drift coefficients (known finding F98)", "the ball-tree algorithm itself (specified, not modelled)"],
+    "uncovered": ["the collocated identity is a theorem for a known mean only (collocated_weights); with a drift it is compared on the library", "kribayes with two or more drift coefficients (known finding F98)", "the ball-tree algorithm itself (specified, not modelled)"],
     "assumptions": ["nearest-sample ties (exact integer test) are skipped and counted"],
 }
 
